@@ -484,17 +484,20 @@ func (p *parser) stmt(st *stmt) {
 		}
 	case "select":
 		p.i--
-		st.kind, st.verb, st.sel = "query", "select", p.sel()
+		st.kind, st.verb = "query", "select" // set first: a parse failure keeps the kind
+		st.sel = p.sel()
 		st.table = st.sel.from
 	case "with":
-		st.kind, st.verb, st.cteAs = "query", "select", p.ident()
+		st.kind, st.verb = "query", "select"
+		st.cteAs = p.ident()
 		p.need("as")
 		p.needOp("(")
 		st.cte = p.sel()
 		p.needOp(")")
 		st.sel, st.table = p.sel(), st.cte.from
 	case "copy":
-		st.kind, st.verb, st.table, st.cols = "copy", "copy", p.name(), p.identList()
+		st.kind, st.verb = "copy", "copy"
+		st.table, st.cols = p.name(), p.identList()
 		p.need("from", "stdin", "binary")
 	case "create":
 		uniq := p.kw("unique")
